@@ -62,6 +62,10 @@ def run_property(spec, tier, seed):
     symx.log(f"[{pid}] {len(sks)} skeletons, tier {tier}, build {bt:.1f}s")
     t1 = time.time()
     extra_env = spec.get("env", {})
+    # other engines of a composite check (KANI / SRCX / PEGSMT) run alongside the symbolic exploration
+    from concurrent.futures import ThreadPoolExecutor
+    extra_pool = ThreadPoolExecutor(4)
+    extra_futs = [extra_pool.submit(fn, tier, seed) for fn in spec.get("extra_engines", [])]
     leaves, sums, fails = symx.run_symx(hp, sks, pid, chunk=spec.get("chunk", 8), extra_env=extra_env)
     explore_s = time.time() - t1
 
@@ -219,8 +223,8 @@ def run_property(spec, tier, seed):
 
     inconclusive_reasons = []
     extra_results = []
-    for fn in spec.get("extra_engines", []):
-        r = fn(tier, seed)
+    for fut in extra_futs:
+        r = fut.result()
         extra_results.append(r)
         for v in r.get("violations", []):
             path = os.path.join(EVID, "replays", f"{pid}-{len(vio_paths)}.json")
